@@ -115,6 +115,15 @@ def equiv(op, il, mres):
     if il == mres:
         return True
     f = op.split()
+    if f[1] == "run" and f[2] == "ziptar" and f[4] != "eof":
+        # a failing stream: which "the stream is over" answer (io.EOF / the transport error) a zero-byte read at the end of the
+        # last member gets depends on whether the error arrived with the last data (FA14); data reads are compared in full
+        def cut(s):
+            s = s.replace("|-:read:injected", "|-:eof")
+            i = s.find("|-:eof")
+            return (s[:i + 6] if i >= 0 else s.rsplit(" split=", 1)[0]) + " " + s.rsplit(" ", 1)[-1]
+        if cut(il) == cut(mres):
+            return True
     if f[1] == "run" and f[2] == "deb":
         if il.startswith("err control:") or (il.startswith("err eof") and not mres.startswith("err eof")):
             return il.split(" ")[-1] == mres.split(" ")[-1]
